@@ -22,6 +22,12 @@ struct Case
     int nstoppers = 2;
     std::vector<int> stop_pre;    // steps before request_stop
     std::vector<CbSpec> cbs;
+    // observer thread: polls stop_requested()/stop_possible() of a token while everything else goes on
+    int obs_steps = 0;
+    // "no stop" mode: nobody requests stop; the only stop_source goes away at a generated point while callbacks are
+    // registered / deregistered: stop_possible must be true exactly while the source exists
+    bool no_stop = false;
+    int src_gone_after = 0;
 };
 
 static Case decode(Tape& t)
@@ -41,6 +47,9 @@ static Case decode(Tape& t)
         if (s.body_action == 2 && s.other == j) s.body_action = 1;
         c.cbs.push_back(s);
     }
+    c.obs_steps = static_cast<int>(t.below(8));
+    c.no_stop = t.chance(1, 4);
+    c.src_gone_after = static_cast<int>(t.below(6));
     return c;
 }
 
@@ -58,7 +67,8 @@ static std::string describe(tape_t const& tape)
         os << (j ? ", " : "") << "{\"pre\": " << s.pre_steps << ", \"hold\": " << s.hold_steps << ", \"body_steps\": " << s.body_steps << ", \"body\": \""
            << (s.body_action == 0 ? "none" : s.body_action == 1 ? "destroy_self" : "destroy_cb" + std::to_string(s.other)) << "\"}";
     }
-    os << "], \"schedule_tape_from\": " << t.pos << "}";
+    os << "], \"observer_polls\": " << c.obs_steps << ", \"mode\": \"" << (c.no_stop ? "no_stop: source destroyed after " + std::to_string(c.src_gone_after) + " steps" : std::string("request_stop")) << "\"";
+    os << ", \"schedule_tape_from\": " << t.pos << "}";
     return os.str();
 }
 
@@ -80,6 +90,9 @@ struct World
     int true_results = 0;
     bool stop_done = false;    // a request_stop() that returned true has returned
     bool stop_started = false;
+    int src_gone = 0;    // 0 alive, 1 being destroyed, 2 gone
+    long long polls_during_lock_ops = 0;
+    int in_lock_op = 0;  // a callback registration / deregistration is in progress on some thread
     std::string fail, fail_oracle;
     long long concurrent_dereg = 0;
     void set_fail(char const* o, std::string m)
@@ -94,7 +107,9 @@ struct World
         slot[static_cast<std::size_t>(j)] = nullptr;
         bool must_have_run = stop_done && ctor_done[static_cast<std::size_t>(j)];
         if (stop_started && !stop_done) ++concurrent_dereg;
+        ++in_lock_op;
         delete p;
+        --in_lock_op;
         destroyed[static_cast<std::size_t>(j)] = 1;
         if (in_body[static_cast<std::size_t>(j)] && body_thread[static_cast<std::size_t>(j)] != vt::self())
             set_fail("destructor_did_not_wait", "stop_callback " + std::to_string(j) + " destructor returned on logical thread " + std::to_string(vt::self()) +
@@ -141,7 +156,7 @@ static Outcome run(tape_t const& tape)
     W.destroyed.assign(m, 0);
     W.ctor_done.assign(m, 0);
     pika::stop_token tok = W.src.get_token();
-    for (int i = 0; i < c.nstoppers; ++i)
+    for (int i = 0; i < (c.no_stop ? 0 : c.nstoppers); ++i)
     {
         s.add([&, i] {
             for (int k = 0; k < c.stop_pre[static_cast<std::size_t>(i)]; ++k) vt::step();
@@ -162,7 +177,9 @@ static Outcome run(tape_t const& tape)
             CbSpec const& sp = c.cbs[j];
             for (int k = 0; k < sp.pre_steps; ++k) vt::step();
             bool stop_was_done = W.stop_done;
+            ++W.in_lock_op;
             auto* p = new callback_t(tok, Body{&W, static_cast<int>(j)});
+            --W.in_lock_op;
             // the body may already have destroyed "itself" only after the slot is published; an inline run
             // from the constructor finds an empty slot and therefore leaves the object to us
             if (!W.destroyed[j]) W.slot[j] = p;
@@ -173,9 +190,40 @@ static Outcome run(tape_t const& tape)
             W.destroy(static_cast<int>(j));
         });
     }
+    if (c.no_stop)
+    {
+        s.add([&] {
+            for (int k = 0; k < c.src_gone_after; ++k) vt::step();
+            W.src_gone = 1;
+            W.src = pika::stop_source(pika::nostopstate);    // the only source lets go of the state
+            W.src_gone = 2;
+        });
+    }
+    if (c.obs_steps > 0)
+    {
+        s.add([&] {
+            for (int k = 0; k < c.obs_steps; ++k)
+            {
+                bool started = W.stop_started, done_before = W.stop_done;
+                int gone_before = W.src_gone;
+                if (W.in_lock_op) ++W.polls_during_lock_ops;
+                bool req = tok.stop_requested();
+                bool pos = tok.stop_possible();
+                int gone_after = W.src_gone;
+                if (req && !started && !W.stop_started) W.set_fail("stop_requested_without_request", "stop_requested() is true although nobody has called request_stop()");
+                if (!req && done_before) W.set_fail("stop_not_visible", "stop_requested() is false on the observer although a request_stop() that returned true had already returned");
+                if (!c.no_stop && !pos) W.set_fail("token_stop_possible", "stop_possible() is false although a stop_source for the state exists");
+                if (c.no_stop && gone_after == 0 && !pos) W.set_fail("token_stop_possible", "stop_possible() is false although the stop_source still exists");
+                if (c.no_stop && gone_before == 2 && pos)
+                    W.set_fail("token_stop_possible", "stop_possible() is true although the only stop_source is gone and stop was never requested (a callback registration/deregistration was in progress: " +
+                            std::string(W.in_lock_op ? "yes" : "no") + ")");
+                vt::step();
+            }
+        });
+    }
     s.diagnose = [&] { return "stop: started=" + std::to_string(W.stop_started) + " done=" + std::to_string(W.stop_done); };
     s.run(t);
-    if (W.fail.empty() && W.true_results != 1) W.set_fail("no_winner", "request_stop() returned true to " + std::to_string(W.true_results) + " of " + std::to_string(c.nstoppers) + " callers");
+    if (W.fail.empty() && !c.no_stop && W.true_results != 1) W.set_fail("no_winner", "request_stop() returned true to " + std::to_string(W.true_results) + " of " + std::to_string(c.nstoppers) + " callers");
     for (std::size_t j = 0; j < m; ++j)
         if (W.slot[j]) { callback_t* p = W.slot[j]; W.slot[j] = nullptr; delete p; }
     Outcome out;
@@ -183,7 +231,10 @@ static Outcome run(tape_t const& tape)
     out.counters["decisions"] = s.decisions;
     out.counters["switches"] = s.switches;
     out.counters["deregistration_during_stop"] = W.concurrent_dereg;
-    out.nontrivial = W.concurrent_dereg > 0 || c.nstoppers >= 2;
+    out.counters["observer_polls_during_registration_ops"] = W.polls_during_lock_ops;
+    out.nontrivial = W.concurrent_dereg > 0 || (!c.no_stop && c.nstoppers >= 2) || W.polls_during_lock_ops > 0;
+    if (c.no_stop) out.tags.push_back("mode:no_stop_source_destroyed");
+    if (W.polls_during_lock_ops) out.tags.push_back("saw:observer_poll_during_registration_op");
     if (W.concurrent_dereg) out.tags.push_back("saw:deregistration_concurrent_with_stopper_loop");
     if (c.nstoppers >= 2) out.tags.push_back("has:racing_request_stop");
     return out;
